@@ -8,6 +8,12 @@ package quic
 // emitted datagrams are read with an independent long-header reader and the frame oracle.
 // The plain quic-go packetPacker (no QUICSpec, anti-DPI scrambler on) is driven the same way.
 //
+// Loss recovery: when a datagram was declared lost (OnLost of every frame the packer registered
+// for it) and PackCoalescedPacket / PackPTOProbePacket has nothing more to send, the datagrams
+// that were NOT lost plus everything sent afterwards must carry the whole stream (the peer can
+// still assemble the complete ClientHello); the stream ranges a datagram carried are read off
+// the wire by the independent reader, not taken from what the packer registered.
+//
 // HelloRetryRequest scenarios (Second > 0): once the first ClientHello is out, a second
 // message is written to the same Initial stream (the second ClientHello) and sent; a datagram
 // of the first flight is declared lost before or after that, and whatever the packer then
@@ -108,6 +114,33 @@ func c09ReadDatagram(b []byte) (payloads [][]byte, bad string) {
 	return payloads, ""
 }
 
+// c09CryptoRanges lists the stream ranges [lo,hi) of the CRYPTO frames in the payloads of one
+// datagram (independent reader; the payloads were judged before).
+func c09CryptoRanges(payloads [][]byte) (rs [][2]int) {
+	for _, p := range payloads {
+		frames, _ := c09Parse(p)
+		for _, f := range frames {
+			if f.Typ == 6 && f.Len > 0 {
+				rs = append(rs, [2]int{int(f.Off), int(f.Off + f.Len)})
+			}
+		}
+	}
+	return rs
+}
+
+// c09CarriedBy names the lost datagrams that carried stream offset x.
+func c09CarriedBy(carried [][][2]int, lost map[int]bool, x int) (dgs []int) {
+	for i, rs := range carried {
+		for _, r := range rs {
+			if lost[i] && r[0] <= x && x < r[1] {
+				dgs = append(dgs, i)
+				break
+			}
+		}
+	}
+	return dgs
+}
+
 // ---- scenarios --------------------------------------------------------------------------------
 
 type c09PkCase struct {
@@ -117,7 +150,7 @@ type c09PkCase struct {
 	Plans   string
 	Shape   int  // upstream scenarios: index into the ClientHello shapes
 	Up      bool // plain quic-go packer, scrambler on
-	Lose    int  // PTO phase: datagram index declared lost (-1: none, 100: the last one)
+	Lose    int  // loss phase: datagram index declared lost (-1: none, 100: the last one, c09LoseAll: every datagram)
 	// HelloRetryRequest scenarios
 	Second    int    // length of the message written after the first flight is out (0: none)
 	LoseFirst bool   // the datagram is declared lost before the second message is written (else after it was sent)
@@ -178,6 +211,34 @@ func c09PkBuilder(name string, L int) QUICFrameBuilder {
 			{CryptoRanges: []QUICCryptoRange{{Offset: 0, Length: h}}, Frames: QUICRandomFrames{MinCRYPTO: 1, MaxCRYPTO: 2, MinPADDING: 1, MaxPADDING: 3, Length: uint16(h + 30)}},
 			{CryptoRanges: []QUICCryptoRange{{Offset: h}}, Frames: QUICRandomFrames{MinCRYPTO: 1, MaxCRYPTO: 3}},
 		}}
+	case "QFF padding-between", "QFF padding-first", "QFF padding-ping-first":
+		// two datagrams, PADDING (and PING) before / between the CRYPTO frames of a datagram:
+		// dg0 carries the tail [L-q,L) and the head [0,q), dg1 the middle [q,L-q) in two frames
+		q := max(L/4, 1)
+		m := max((L-2*q)/2, 1)
+		switch name {
+		case "QFF padding-between":
+			return &QUICFlightFrames{Datagrams: []QUICFrames{
+				{QUICFrameCrypto{Offset: -q}, QUICFramePadding{Length: 40}, QUICFramePing{}, QUICFrameCrypto{Offset: 0, Length: q}},
+				{QUICFrameCrypto{Offset: q, Length: m}, QUICFramePadding{Length: 1}, QUICFrameCrypto{Offset: q + m, Length: -q}},
+			}}
+		case "QFF padding-first":
+			return &QUICFlightFrames{Datagrams: []QUICFrames{
+				{QUICFramePadding{Length: 1}, QUICFrameCrypto{Offset: 0, Length: q}, QUICFrameCrypto{Offset: -q}},
+				{QUICFramePadding{Length: 3}, QUICFrameCrypto{Offset: q, Length: m}, QUICFrameCrypto{Offset: q + m, Length: -q}, QUICFramePadding{Length: 7}},
+			}}
+		}
+		return &QUICFlightFrames{Datagrams: []QUICFrames{
+			{QUICFramePing{}, QUICFramePadding{Length: 2}, QUICFramePing{}, QUICFrameCrypto{Offset: -q}, QUICFrameCrypto{Offset: 0, Length: q}},
+			{QUICFrameCrypto{Offset: q, Length: m}, QUICFramePing{}, QUICFramePadding{Length: 5}, QUICFramePing{}, QUICFrameCrypto{Offset: q + m, Length: -q}},
+		}}
+	case "QRFF padded-multi":
+		// PADDING and PING shuffled among several CRYPTO frames in both datagrams (Length > natural size)
+		q := max(L/4, 1)
+		return &QUICRandomFlightFrames{PerDatagram: []QUICRandomFlightDatagram{
+			{CryptoRanges: []QUICCryptoRange{{Offset: -q}, {Offset: 0, Length: q}}, Frames: QUICRandomFrames{MinCRYPTO: 2, MaxCRYPTO: 3, MinPING: 1, MaxPING: 1, MinPADDING: 1, MaxPADDING: 2, Length: uint16(2*q + 40)}},
+			{CryptoRanges: []QUICCryptoRange{{Offset: q, Length: -q}}, Frames: QUICRandomFrames{MinCRYPTO: 1, MaxCRYPTO: 2, MinPADDING: 1, MaxPADDING: 1, Length: uint16(L - 2*q + 30)}},
+		}}
 	case "QRFF bad second":
 		return &QUICRandomFlightFrames{PerDatagram: []QUICRandomFlightDatagram{
 			{CryptoRanges: []QUICCryptoRange{{Offset: 0, Length: h}}},
@@ -235,6 +296,8 @@ func c09PkPlans(name string) []InitialPacketPlan {
 		return []InitialPacketPlan{{PacketSize: 1250}}
 	case "size600,crypto7":
 		return []InitialPacketPlan{{PacketSize: 600}, {CryptoLength: 7}}
+	case "size1250,size1250":
+		return []InitialPacketPlan{{PacketSize: 1250}, {PacketSize: 1250}}
 	}
 	explore.Must(false, "unknown plans %s", name)
 	return nil
@@ -331,8 +394,31 @@ func c09PkCases(thorough bool) []c09PkCase {
 			}
 		}
 	}
+	// loss recovery of planned flights (appended, so that the indices of the cases above stay):
+	// flight layouts with PADDING / PING before and between the CRYPTO frames of a datagram;
+	// the first, the last or every datagram (a Retry re-queues them all) is declared lost and
+	// everything queued is sent again through PackCoalescedPacket or PackPTOProbePacket
+	for _, L := range []int{63, 300, 2300} {
+		for _, b := range c09PkLossBuilders {
+			for _, pl := range []string{"none", "size1250,size1250"} {
+				for _, lose := range []int{0, 100, c09LoseAll} {
+					for _, via := range []string{"pack", "pto"} {
+						if !thorough && pl != "none" && (via == "pto" || lose == 100) {
+							continue
+						}
+						cs = append(cs, c09PkCase{Name: fmt.Sprintf("L=%d %s plans=%s lose=%d, resent via %s", L, b, pl, lose, via), L: L, Builder: b, Plans: pl, Lose: lose, Via: via})
+					}
+				}
+			}
+		}
+	}
 	return cs
 }
+
+// c09LoseAll as c09PkCase.Lose: every datagram sent so far is declared lost (what a Retry does)
+const c09LoseAll = 200
+
+var c09PkLossBuilders = []string{"QFF padding-between", "QFF padding-first", "QFF padding-ping-first", "QRFF padded-multi", "QFF tail-first", "QRFF padded"}
 
 type c09PkRun struct {
 	acc *c09Acc
@@ -410,6 +496,9 @@ func c09PkOne(c c09PkCase, acc *c09Acc) *explore.Fail {
 		}
 		var sent []*coalescedPacket
 		var sizes []int
+		var carried [][][2]int // per datagram put on the wire (PTO probes included): the stream ranges of its CRYPTO frames
+		lost := map[int]bool{} // indices into carried: datagrams declared lost
+		written := len(ch)     // length of the Initial stream so far
 		// drain calls PackCoalescedPacket until it has nothing more to send and judges every
 		// datagram; a packer error is handed to the caller
 		drain := func(cov *c09Cover, what, keyPrefix string) (*explore.Fail, error) {
@@ -433,10 +522,12 @@ func c09PkOne(c c09PkCase, acc *c09Acc) *explore.Fail {
 				}
 				sent = append(sent, pkt)
 				sizes = append(sizes, len(pkt.buffer.Data))
+				carried = append(carried, c09CryptoRanges(payloads))
 			}
 		}
 		// lose declares every frame of datagram k lost, the way the sent packet handler does
 		lose := func(k int) (nLost int) {
+			lost[k] = true
 			for _, lp := range sent[k].longHdrPackets {
 				for _, f := range lp.frames {
 					f.Handler.OnLost(f.Frame)
@@ -444,6 +535,62 @@ func c09PkOne(c c09PkCase, acc *c09Acc) *explore.Fail {
 				}
 			}
 			return nLost
+		}
+		// loseSel declares the selected datagram(s) lost: index k, or all of them (c09LoseAll)
+		loseSel := func(k int) (nLost int) {
+			if c.Lose != c09LoseAll {
+				return lose(k)
+			}
+			for i := range sent {
+				nLost += lose(i)
+			}
+			return nLost
+		}
+		// unrecovered: the first stream range below n that no datagram the peer can have
+		// received carries - every datagram put on the wire but the ones declared lost
+		unrecovered := func(n int) (lo, hi int) {
+			have := make([]bool, n)
+			for i, rs := range carried {
+				if lost[i] {
+					continue
+				}
+				for _, r := range rs {
+					for j := r[0]; j < r[1] && j < n; j++ {
+						have[j] = true
+					}
+				}
+			}
+			for i := range have {
+				if !have[i] {
+					j := i
+					for j < n && !have[j] {
+						j++
+					}
+					return i, j
+				}
+			}
+			return -1, -1
+		}
+		// notRecovered is the loss-recovery verdict, asked when the packer has nothing more to
+		// send: the datagrams that were not lost plus everything sent afterwards must carry the
+		// whole stream. No verdict when the flight itself was outside the quantifier (a fixed
+		// layout that met a slice it does not tile).
+		notRecovered := func(how string) *explore.Fail {
+			if rec != nil && rec.mixed {
+				acc.out.Add(who + " loss recovery: layout met a slice it does not tile (no verdict)")
+				return nil
+			}
+			lo, hi := unrecovered(written)
+			if lo < 0 {
+				return nil
+			}
+			var ls []int
+			for i := range carried {
+				if lost[i] {
+					ls = append(ls, i)
+				}
+			}
+			return explore.Failf(who+":lost-not-resent", "%s: datagram(s) %v of the %d put on the wire were declared lost (OnLost of every frame the packer registered for them) and %s was drained until the packer had nothing more to send, no error: stream bytes [%d,%d) of the %d byte Initial stream were carried by the lost datagram(s) %v only and were never put on the wire again - the peer can never assemble the complete ClientHello (silently truncated)", c.Name, ls, len(carried), how, lo, hi, written, c09CarriedBy(carried, lost, lo))
 		}
 		szClass := func() string {
 			szc := "sizes="
@@ -496,6 +643,7 @@ func c09PkOne(c c09PkCase, acc *c09Acc) *explore.Fail {
 				acc.out.Add(who + " second Write error: " + err.Error())
 				return nil
 			}
+			written = total
 			cov2 := newCover(total)
 			copy(cov2.cnt, cov.cnt)
 			fail, err := drain(cov2, "after the second message was written: ", "second-")
@@ -514,14 +662,15 @@ func c09PkOne(c c09PkCase, acc *c09Acc) *explore.Fail {
 			}
 			acc.out.Add(fmt.Sprintf("%s HRR second message sent (loss before: %v) dgs=%d %s", who, c.LoseFirst, c09Cap(len(sent)-first, 9), cov2.class()))
 			if c.LoseFirst {
-				return nil
+				// the lost datagram's frames were queued before the second message was sent
+				return notRecovered("PackCoalescedPacket (the second message written in between)")
 			}
 			k = min(c.Lose, len(sent)-1)
 		}
 
 		// loss phase: declare one datagram lost and let the packer send it again
 		if c.Lose >= 0 {
-			nLost = lose(k)
+			nLost = loseSel(k)
 			probeCov := newCover(total)
 			if c.Via == "pack" {
 				n0 := len(sent)
@@ -534,7 +683,7 @@ func c09PkOne(c c09PkCase, acc *c09Acc) *explore.Fail {
 					return nil
 				}
 				acc.out.Add(fmt.Sprintf("%s resent lost-frames=%d dgs=%d %s", who, c09Cap(nLost, 4), c09Cap(len(sent)-n0, 4), probeCov.class()))
-				return nil
+				return notRecovered("PackCoalescedPacket")
 			}
 			probes := 0
 			for ; probes < 60; probes++ {
@@ -561,15 +710,19 @@ func c09PkOne(c c09PkCase, acc *c09Acc) *explore.Fail {
 						return explore.Failf(who+":probe-"+kind, "%s: PTO probe %d after losing datagram %d: %s", c.Name, probes, k, msg)
 					}
 				}
+				carried = append(carried, c09CryptoRanges(payloads))
 			}
 			acc.out.Add(fmt.Sprintf("%s PTO lost-frames=%d probes=%d %s", who, c09Cap(nLost, 4), c09Cap(probes, 4), probeCov.class()))
+			if probes < 60 { // PackPTOProbePacket returned nil: nothing left to retransmit
+				return notRecovered("PackPTOProbePacket")
+			}
 		}
 		return nil
 	})
 }
 
 func c09PackerPart() explore.Part {
-	const rule = "real uPacketPacker (real crypto streams, framer, retransmission queue, sent/received packet handlers; pass-through Initial sealer) driven like the send loop: Write(ClientHello), PackCoalescedPacket until nil; 22 FrameBuilders (nil, QUICFrames, QUICRandomFrames, QUICMultiDatagramFrames, QUICFlightFrames, QUICRandomFlightFrames; valid, invalid and late-invalid; three of them fixed QUICFrames layouts written for one slice length - last frame 'the rest', all lengths explicit, second frame ending behind the ClientHello - which the packer applies to every datagram and retransmission of the flight whatever the slice: a recording pass-through notes the slice lengths; when the layout tiled them all the flight is judged in full, otherwise every emitted frame is judged and an error, also a late one, or an incomplete flight is recorded without verdict) x InitialPackets plans {none, CryptoLength 40, 999+PacketSize 1250, PacketSize 1250, PacketSize 600 + CryptoLength 7} x ClientHello lengths {1,3,63,300,1162,2300}; every builder draw an explorer choice; then one datagram is declared lost and PackPTOProbePacket drained (frames judged, not completeness). HelloRetryRequest scenarios (ClientHello lengths {3,63,300,1162}, plans {none, CryptoLength 40}): after the first flight a second message (1 byte or as long as the first) is written to the same Initial stream and sent (whole stream covered, or no error-free end), the first or last datagram is declared lost before or after that and sent again through PackCoalescedPacket or PackPTOProbePacket; every CRYPTO frame of every datagram, retransmissions included, is judged against the whole stream. Plus the plain quic-go packetPacker with the scrambler on over hand-built ClientHellos. Datagrams are read with an independent long-header + frame reader: every CRYPTO byte at its true offset, whole ClientHello covered when the packer has nothing more to send, or an error before the first datagram"
+	const rule = "real uPacketPacker (real crypto streams, framer, retransmission queue, sent/received packet handlers; pass-through Initial sealer) driven like the send loop: Write(ClientHello), PackCoalescedPacket until nil; 26 FrameBuilders (nil, QUICFrames, QUICRandomFrames, QUICMultiDatagramFrames, QUICFlightFrames, QUICRandomFlightFrames; valid, invalid and late-invalid; three of them fixed QUICFrames layouts written for one slice length - last frame 'the rest', all lengths explicit, second frame ending behind the ClientHello - which the packer applies to every datagram and retransmission of the flight whatever the slice: a recording pass-through notes the slice lengths; when the layout tiled them all the flight is judged in full, otherwise every emitted frame is judged and an error, also a late one, or an incomplete flight is recorded without verdict) x InitialPackets plans {none, CryptoLength 40, 999+PacketSize 1250, PacketSize 1250, PacketSize 600 + CryptoLength 7} x ClientHello lengths {1,3,63,300,1162,2300}; every builder draw an explorer choice; then one datagram is declared lost (OnLost of every frame the packer registered for it) and PackPTOProbePacket or PackCoalescedPacket drained until nothing is left: frames judged, and loss recovery: the datagrams that were not lost plus everything sent afterwards must carry the whole stream (key lost-not-resent). Loss-recovery scenarios of planned flights: 6 flight layouts (QUICFlightFrames with QUICFramePadding / QUICFramePing before and between the CRYPTO frames of both datagrams, QUICRandomFlightFrames with Frames.Length > 0 shuffling PADDING and PING among several CRYPTO frames) x ClientHello lengths {63,300,2300} x plans {none, PacketSize 1250 x 2} x {first, last, every datagram lost (Retry)} x {PackCoalescedPacket, PackPTOProbePacket}. HelloRetryRequest scenarios (ClientHello lengths {3,63,300,1162}, plans {none, CryptoLength 40}): after the first flight a second message (1 byte or as long as the first) is written to the same Initial stream and sent (whole stream covered, or no error-free end), the first or last datagram is declared lost before or after that and sent again through PackCoalescedPacket or PackPTOProbePacket; every CRYPTO frame of every datagram, retransmissions included, is judged against the whole stream. Plus the plain quic-go packetPacker with the scrambler on over hand-built ClientHellos. Datagrams are read with an independent long-header + frame reader: every CRYPTO byte at its true offset, whole ClientHello covered when the packer has nothing more to send, or an error before the first datagram"
 	return explore.Part{
 		Name: "packer",
 		Run: func(e explore.Env) *explore.Report {
